@@ -214,6 +214,56 @@ def e3_kernel(out):
     return eng, obl
 
 
+FIELD_LEVEL = """
+// lists written on a field / on a variant: merged, split over several derive_ex attributes, split in the other order; both entry points
+#[derive_ex(Clone, Default)]
+pub struct P0<A> { #[derive_ex(Clone(bound(A: Clone)), Default(bound(A: Default)))] pub a: A, pub r: R }
+#[derive_ex(Clone, Default)]
+pub struct P1<A> { #[derive_ex(Clone(bound(A: Clone)))] #[derive_ex(Default(bound(A: Default)))] pub a: A, pub r: R }
+#[derive(Ex)]
+#[derive_ex(Clone)]
+#[derive_ex(Default)]
+pub struct P2<A> { #[derive_ex(Default(bound(A: Default)))] #[derive_ex(Clone(bound(A: Clone)))] pub a: A, pub r: R }
+#[derive_ex(Clone, PartialEq)]
+pub enum E0<A> { #[derive_ex(Clone(bound(A: Clone)), PartialEq(bound(A: PartialEq)))] V(A, R), W }
+#[derive_ex(Clone, PartialEq)]
+pub enum E1<A> { #[derive_ex(Clone(bound(A: Clone)))] #[derive_ex(PartialEq(bound(A: PartialEq)))] V(A, R), W }
+#[derive(Ex)]
+#[derive_ex(PartialEq, Clone)]
+pub enum E2<A> { #[derive_ex(PartialEq(bound(A: PartialEq)))] #[derive_ex(Clone(bound(A: Clone)))] V(A, R), W }
+
+pub fn check<S: Src>(s: &mut S) {
+    let (p, q) = (s.u8(), s.u8());
+    trace_reset();
+    let c0 = P0 { a: R(p), r: R(q) }.clone();
+    let t0 = trace_take();
+    trace_reset();
+    let c1 = P1 { a: R(p), r: R(q) }.clone();
+    let t1 = trace_take();
+    trace_reset();
+    let c2 = P2 { a: R(p), r: R(q) }.clone();
+    let t2 = trace_take();
+    assert!(c0.a.0 == c1.a.0 && c0.r.0 == c1.r.0 && trace_same(&t0, &t1), "clone-differs-split");
+    assert!(c0.a.0 == c2.a.0 && c0.r.0 == c2.r.0 && trace_same(&t0, &t2), "clone-differs-split-derive");
+    let (d0, d1, d2) = (<P0<u8> as Default>::default(), <P1<u8> as Default>::default(), <P2<u8> as Default>::default());
+    assert!(d0.a == d1.a && d0.r.0 == d1.r.0 && d0.a == d2.a && d0.r.0 == d2.r.0, "default-differs-split");
+    let sel = s.bool();
+    let (x0, y0) = (if sel { E0::V(p, R(q)) } else { E0::W }, E0::V(q, R(q)));
+    let (x1, y1) = (if sel { E1::V(p, R(q)) } else { E1::W }, E1::V(q, R(q)));
+    let (x2, y2) = (if sel { E2::V(p, R(q)) } else { E2::W }, E2::V(q, R(q)));
+    assert!((x0 == y0) == (x1 == y1) && (x0 == y0) == (x2 == y2), "eq-differs-split");
+    assert!(matches!(x1.clone(), E1::V(..)) == sel && matches!(x2.clone(), E2::V(..)) == sel && matches!(x0.clone(), E0::V(..)) == sel, "enum-clone-differs-split");
+}
+
+"""
+
+
+def build_field_level(name):
+    desc = "field- and variant-level derive_ex lists: merged vs split vs split in the other order, both entry points"
+    src = e1.HEADER.format(pid=PID, name=name, desc=desc) + FIELD_LEVEL + e1.harness(unwind=18)
+    return kani_runner.Program(name, src, "field-level-lists|merged+split", desc, True)
+
+
 def run(tier):
     t0 = time.time()
     rnd = random.Random(common.seed())
@@ -223,6 +273,7 @@ def run(tier):
         progs.append(build("p%05d" % len(progs), body_id, rnd, tier))
         if body_id not in ("clone-default", "type-level", "debug-helpers"):
             progs.append(build("p%05d" % len(progs), body_id, rnd, tier, superset=True))
+    progs.append(build_field_level("p%05d" % len(progs)))
     try:
         eng, obl = e3_kernel(out)
         extra = {"e3_obligations": obl.total, "e3_discharged": obl.discharged, "e3_functions": obl.functions, "e3_solver_time_s": round(obl.solver_time, 2)}
